@@ -284,6 +284,8 @@ def replay(w):
                     out = S.ensemble_sift(x, nensembles=3, max_imfs=cap, ensemble_noise=0.1)
                 elif v == 'complete_ensemble_sift':
                     out = S.complete_ensemble_sift(x, nensembles=3, max_imfs=cap)[0]
+                elif v == 'mask_sift[explicit list]':
+                    out = S.mask_sift(x, mask_freqs=[0.3, 0.15, 0.08, 0.04, 0.02, 0.01], max_imfs=cap)
                 elif v == 'sift_second_layer':
                     IA = np.abs(S.sift(x, max_imfs=3)) + 0.1
                     out = S.sift_second_layer(IA, sift_args={'max_imfs': cap})
@@ -337,7 +339,7 @@ def refute(tier, seed, emit):
     caps = [1, 2, 3] if tier == 'quick' else [1, 2, 3, 4, 6]
     emit.scope('ensemble_sift, complete_ensemble_sift, sift_second_layer, mask_sift_second_layer x caps %s x %d signals: never more components than the cap, documented shape, finite' % (caps, min(nsig, 3)))
     for si in range(min(nsig, 3)):
-        for v in ('ensemble_sift', 'complete_ensemble_sift', 'sift_second_layer', 'mask_sift_second_layer'):
+        for v in ('ensemble_sift', 'complete_ensemble_sift', 'sift_second_layer', 'mask_sift_second_layer', 'mask_sift[explicit list]'):
             for cap in caps:
                 emit.case((si, v, cap), contract=v)
                 w = {'kind': 'cap', 'variant': v, 'cap': cap, 'sig': si}
